@@ -332,10 +332,248 @@ def check(case):
     return {"nontrivial": (d >= 2 and has_sub_or_letcount) or autoform, "classes": classes, "key": repr(case), "sample": {"text": text, "auto_names": anon, "wrapped": wrap}}
 
 
+# ------------------------------------------------------------------------------ full builder API
+# Aliases, macros and pulse imports cannot be written in Q-syntax, but the other two front ends
+# (text and CircuitBuilder, anchored at circuitbuilder.py:587-906) both express them: this part
+# replays general programs through every CircuitBuilder / BlockBuilder method, choosing at random
+# between the documented argument forms (names or core objects, evaluated at once or lazily).
+
+RULE_FULL = (
+    "builder-api-full: general programs the reference accepts (lets, register, whole/single/slice aliases with "
+    "literal or let bounds, pulse imports, macros, nested blocks/loops/subcircuits, anonymous gates) are built "
+    "from text, from the S-expression and through CircuitBuilder.let/register/map/macro/usepulses and "
+    "BlockBuilder.gate/block/loop/subcircuit calls; every declaration and loop is evaluated immediately "
+    "(documented default) whenever all it refers to is available as core objects, with probability 1/2, else "
+    "passed lazily; references are given as names or objects at random.  Oracle: all three accept, are pairwise "
+    "== and generate the same text up to the spelling of equal numbers, and the builder circuit has the reference's meaning and declarations."
+)
+
+RULE = RULE + "  " + RULE_FULL
+
+
+def build_oo_full(prog, seed):
+    from jaqalpaq.core.circuitbuilder import CircuitBuilder, SequentialBlockBuilder, ParallelBlockBuilder, SubcircuitBlockBuilder
+
+    ch = gen.Chooser(seed)
+    cb = CircuitBuilder()
+    objs = {}
+    modes = []
+
+    def ref(name, want_obj):
+        """name or object for a header name; want_obj=True => object required (None if absent)"""
+        if want_obj:
+            return objs.get(name)
+        if name in objs and ch.bool():
+            return objs[name]
+        return name
+
+    def refs_available(names):
+        return all(n in objs for n in names)
+
+    for m in prog["usepulses"]:
+        ev = ch.bool()
+        cb.usepulses(m, unevaluated=not ev)
+        modes.append("usepulses:" + ("eval" if ev else "lazy"))
+    for n, v in prog["lets"]:
+        ev = ch.bool()
+        r = cb.let(n, v, unevaluated=not ev)
+        if ev:
+            objs[n] = r
+        modes.append("let:" + ("eval" if ev else "lazy"))
+    if prog["reg"] is not None:
+        n, size = prog["reg"]
+        deps = [size] if isinstance(size, str) else []
+        ev = refs_available(deps) and ch.bool()
+        r = cb.register(n, ref(size, ev) if deps else size, unevaluated=not ev)
+        if ev:
+            objs[n] = r
+        modes.append("register:" + ("eval" if ev else "lazy"))
+    for n, src, sel in prog["maps"]:
+        deps = [src] + ([x for x in sel[1:] if isinstance(x, str)] if sel is not None else [])
+        ev = refs_available(deps) and ch.bool()
+
+        def iv(x):
+            return ref(x, ev) if isinstance(x, str) else x
+
+        if sel is None:
+            r = cb.map(n, ref(src, ev), unevaluated=not ev)
+        elif sel[0] == "i":
+            r = cb.map(n, ref(src, ev), iv(sel[1]), unevaluated=not ev)
+        else:
+            r = cb.map(n, ref(src, ev), slice(iv(sel[1]), iv(sel[2]), iv(sel[3])), unevaluated=not ev)
+        if ev:
+            objs[n] = r
+        modes.append("map:" + ("eval" if ev else "lazy"))
+
+    def arg(a, params, state):
+        """state['names'] is set when a header name is passed as a string (needs the circuit context)."""
+        if a[0] == "n":
+            return a[1]
+        if a[0] == "id":
+            if a[1] in params:
+                state["params"] = True
+                return a[1]
+            r = ref(a[1], False)
+            if isinstance(r, str):
+                state["names"] = True
+            return r
+        base, idx = a[1], a[2]
+        if base in params or (isinstance(idx, str) and idx in params):
+            state["params"] = True
+            if base not in params:
+                state["names"] = True
+            if isinstance(idx, str) and idx not in params:
+                state["names"] = True
+            return ("array_item", base, idx)
+        b = ref(base, False)
+        i = ref(idx, False) if isinstance(idx, str) else idx
+        if isinstance(b, str) or isinstance(i, str):
+            state["names"] = True
+            return ("array_item", b, i)
+        if ch.bool():
+            return b[i]
+        return ("array_item", b, i)
+
+    def cnt(x, params, state):
+        if isinstance(x, str):
+            if x in params:
+                state["params"] = True
+                return x
+            r = ref(x, False)
+            if isinstance(r, str):
+                state["names"] = True
+            return r
+        return x
+
+    def fill(bb, stmts, params, state):
+        for s in stmts:
+            if s[0] == "g":
+                bb.gate(s[1], *[arg(a, params, state) for a in s[2]])
+            elif s[0] in ("seq", "par"):
+                fill(bb.block(parallel=(s[0] == "par")), s[1], params, state)
+            elif s[0] == "loop":
+                inner = SequentialBlockBuilder() if s[2][0] == "seq" else ParallelBlockBuilder()
+                st = {}
+                fill(inner, s[2][1], params, st)
+                c = cnt(s[1], params, st)
+                closed = not st.get("names") and not st.get("params")
+                ev = closed and ch.bool()
+                bb.loop(c, inner if ch.bool() else inner.expression, unevaluated=not ev)
+                modes.append("loop:" + ("eval" if ev else "lazy"))
+                state.update(st)
+            elif s[0] == "sub":
+                st = {}
+                c = None if s[1] is None else cnt(s[1], params, st)
+                sb = bb.subcircuit() if c is None and ch.bool() else bb.subcircuit(c)
+                fill(sb, s[2], params, st)
+                state.update(st)
+            else:
+                raise ValueError(s)
+
+    for m in prog["macros"]:
+        body = m["body"]
+        if body[0] not in ("seq", "par"):
+            raise ValueError(body)
+        inner = SequentialBlockBuilder() if body[0] == "seq" else ParallelBlockBuilder()
+        st = {}
+        fill(inner, body[1], set(m["params"]), st)
+        ev = not st.get("names") and ch.bool()
+        params = list(m["params"])
+        cb.macro(m["name"], params if params or ch.bool() else None, inner if ch.bool() else inner.expression, unevaluated=not ev)
+        modes.append("macro:" + ("eval" if ev else "lazy"))
+    fill(cb, prog["body"], set(), {})
+    return cb.build(), modes
+
+
+def check_full(case):
+    from jaqalpaq.core.circuitbuilder import build
+    from ..common import Ref, Invalid, extract, same_meaning, show
+
+    prog = case["prog"]
+    if any(s[0] == "branch" for s in walk(prog["body"])):
+        raise Skip()
+    try:
+        ref = Ref(prog)
+        want = ref.validate()
+        wantd = ref.declarations()
+    except Invalid:
+        raise Skip()
+    text = render.to_text(prog)
+    st_, ct = guard(parse, text, what="parse")
+    if st_ == "err":
+        raise Skip()  # acceptance of valid programs is C02/C14's business
+    st_, cs = guard(build, render.to_sexpr(prog), what="build(sexpr)")
+    if st_ == "err":
+        raise Violation("sexpr-rejected", f"{cs}\n--- program:\n{text}")
+    st_, r = guard(build_oo_full, prog, case["oo_seed"], what="CircuitBuilder")
+    if st_ == "err":
+        raise Violation("builder-api-rejected", f"{r}\n--- program:\n{text}", where=type(r).__name__)
+    co, modes = r
+    circs = {"text": ct, "sexpr": cs, "builder-api": co}
+    texts = {}
+    for k, c in circs.items():
+        st_, t = guard(generate, c, what=f"generate({k})")
+        texts[k] = t if st_ == "ok" else f"<generate raised {t}>"
+    names = list(circs)
+    for i in range(len(names)):
+        for j in range(i + 1, len(names)):
+            a, b = names[i], names[j]
+            # numbers are compared by value (C20): the gate memo may hand `g 1.0` the earlier `g 1`
+            if not (circs[a] == circs[b]) or not (circs[b] == circs[a]) or _by_value(texts[a]) != _by_value(texts[b]):
+                raise Violation("front-ends-differ", f"{a} vs {b} (builder modes {modes})\n--- {a}:\n{texts[a]}\n--- {b}:\n{texts[b]}\n--- program:\n{text}", where=f"{a}/{b}")
+    try:
+        ex = extract.Extractor(co)
+        got = ex.meaning()
+        gotd = ex.declarations()
+    except extract.ExtractError as e:
+        raise Violation("builder-circuit-no-meaning", f"{e}\n--- program:\n{text}")
+    if not same_meaning(want, got):
+        raise Violation("builder-meaning", f"builder modes {modes}\nreference:\n{show(want)}\nbuilder circuit:\n{show(got)}\n--- program:\n{text}")
+    gotd.pop("nreg", None)
+    if _plain(wantd) != _plain(gotd):
+        raise Violation("builder-declarations", f"builder modes {modes}\nreference {wantd}\nbuilder   {gotd}\n--- program:\n{text}")
+    kinds = sorted(set(modes))
+    evald = sum(1 for m in modes if m.endswith(":eval"))
+    nontrivial = bool(prog["maps"] or prog["macros"]) and evald >= 1 and any(m.endswith(":lazy") for m in modes)
+    return {"nontrivial": nontrivial, "classes": kinds, "key": text + repr(modes), "sample": {"text": text, "builder_modes": modes}}
+
+
+def _by_value(text):
+    out = []
+    for tok in text.split():
+        try:
+            out.append(repr(float(tok)))
+        except ValueError:
+            out.append(tok)
+    return out
+
+
+def _plain(x):
+    if isinstance(x, (list, tuple)):
+        return [_plain(v) for v in x]
+    if isinstance(x, dict):
+        return {k: _plain(v) for k, v in x.items()}
+    return repr(x) if isinstance(x, float) else x
+
+
+def _full_cases():
+    cfg = gen.Cfg(max_depth=4)
+
+    def mk(seed):
+        ch = gen.Chooser(seed)
+        prog, _b = gen.make_prog(ch, cfg)
+        return {"prog": prog, "oo_seed": ch.int(0, 10**9)}
+
+    return gen.SEEDS.map(mk)
+
+
 def _differs_only_by_wrap(a, b):
     strip = lambda t: [l for l in t.splitlines() if l.strip() not in ("prepare_all", "measure_all")]
     return strip(a) == strip(b)
 
 
 def parts():
-    return [Part("front-ends", gen.cases(_case), check, quick=4000, thorough=100000, min_nontrivial=0.2)]
+    return [
+        Part("front-ends", gen.cases(_case), check, quick=4000, thorough=100000, min_nontrivial=0.2),
+        Part("builder-api-full", _full_cases(), check_full, quick=2500, thorough=60000, min_nontrivial=0.2),
+    ]
